@@ -113,8 +113,34 @@ def _simple(c):
   return c.isascii() and (c.isalnum() or c in "_-")
 
 
+class Lexed(str):
+  """The evaluated string; .ntok = number of tokens lexed (ninja tests the token list for emptiness)."""
+  ntok = 0
+
+
 def py_lex(text, pos, is_path, env=None):
   """Returns (string, newpos) or raises ValueError.  Undefined variables evaluate to ''."""
+  v, newpos, ntok = _py_lex(text, pos, is_path, env)
+  r = Lexed(v)
+  r.ntok = ntok
+  return r, newpos
+
+
+def read_path_list(text, pos, env=None):
+  """ninja's `for (;;) { ReadPath; if (eval.empty()) break; ... }`, then evaluation: an evaluated-empty path
+  is an error ("empty path")."""
+  res = []
+  while True:
+    p, pos = py_lex(text, pos, True, env)
+    pos = _eat_ws(text, pos)
+    if p.ntok == 0:
+      return res, pos
+    if p == "":
+      raise ValueError("empty path")
+    res.append(str(p))
+
+
+def _py_lex(text, pos, is_path, env=None):
   env = env or {}
   out = []
   n = len(text)
@@ -152,13 +178,13 @@ def py_lex(text, pos, is_path, env=None):
       if text[pos + 1:pos + 2] != "\n":
         raise ValueError("lexing error")
       if is_path:
-        return "".join(out), pos
-      return "".join(out), pos + 2
+        return "".join(out), pos, len(out)
+      return "".join(out), pos + 2, len(out)
     elif c == "\n":
-      return "".join(out), (pos if is_path else pos + 1)
+      return "".join(out), (pos if is_path else pos + 1), len(out)
     elif c in " :|":
       if is_path:
-        return "".join(out), pos
+        return "".join(out), pos, len(out)
       out.append(c); pos += 1
     else:
       out.append(c); pos += 1
@@ -171,13 +197,7 @@ def _eat_ws(text, pos):
 
 
 def _read_paths(text, pos):
-  res = []
-  while True:
-    p, pos = py_lex(text, pos, True)
-    pos = _eat_ws(text, pos)
-    if not p:
-      return res, pos
-    res.append(p)
+  return read_path_list(text, pos)
 
 
 def parse_ninja(text):
@@ -259,6 +279,7 @@ def run_impl(case, outdir, keep=False):
 class Plan(list):
   """The build statements read back; .unreadable is set when ninja's lexer rejects the file as a whole."""
   unreadable = None
+  cause = None
 
 
 def split_entry(line, outdir):
@@ -274,20 +295,38 @@ def read_plan(outdir):
   with open(os.path.join(outdir, "build.ninja"), newline="") as f:
     text = f.read()
   plan = Plan()
+  chunks = statements_text(outdir)
   try:
     sts = parse_ninja(text)
-    if len(sts) != len(statements_text(outdir)):
+    if len(sts) != len(chunks):
       raise ValueError("a '$' at the end of a module binding swallowed the following statement")
   except ValueError as e:
-    # ninja would reject the file.  Re-read it statement by statement (write_build_statement writes exactly
-    # three lines) so the rest of the plan can still be compared; the module binding is kept raw.
+    # ninja would reject the file (or read a different plan).  Is the unescaped module binding the only culprit?
     plan.unreadable = str(e)
-    sts = []
-    for chunk in statements_text(outdir):
-      l1, l2, l3 = chunk.split("\n")[:3]
-      st = parse_ninja(l1 + "\n")[0]
-      st["binds"] = {"imports": py_lex(l2[len("  imports = "):] + "\n", 0, False)[0], "module": None}
-      sts.append(st)
+    neutral = "".join(c.split("\n")[0] + "\n" + c.split("\n")[1] + "\n  module = x\n" if c.count("\n") >= 3 else c
+                      for c in chunks)
+    try:
+      sts = parse_ninja(neutral)
+      ok = len(sts) == len(chunks)
+    except ValueError:
+      ok = False
+    plan.cause = "module-binding" if ok else "other"
+    if ok:
+      for st in sts:
+        st["binds"]["module"] = None
+    else:
+      sts = []
+      for c in chunks:
+        ls = c.split("\n")
+        try:
+          st = parse_ninja(ls[0] + "\n")[0]
+        except (ValueError, IndexError):
+          st = {"outs": [], "rule": None, "ins": [], "implicit": [], "binds": {}}
+        try:
+          st["binds"] = {"imports": py_lex(ls[1][len("  imports = "):] + "\n", 0, False)[0], "module": None}
+        except (ValueError, IndexError):
+          st["binds"] = {"imports": "", "module": None}
+        sts.append(st)
   for st in sts:
     imp = st["binds"].get("imports", "")
     try:
@@ -353,8 +392,7 @@ def oracle(case, outdir, result, topo_cap=3000, rng=None):
     return bad
   _, steps = result
   if getattr(steps, "unreadable", None):
-    raw_dollar = any("$" in m[2] for m in case["mods"])
-    bad.append(("module-name-not-escaped" if raw_dollar else "plan-unreadable",
+    bad.append(("module-name-not-escaped" if steps.cause == "module-binding" else "plan-unreadable",
                 "ninja cannot load build.ninja (%s); module names: %r" % (steps.unreadable, [m[2] for m in case["mods"]][:6])))
     return bad
   default = os.path.join(outdir, "imports", "default.pyi")
@@ -489,7 +527,6 @@ def oracle(case, outdir, result, topo_cap=3000, rng=None):
             bad.append(("schedule-reads-before-write", "schedule %r: step %d reads %r before it is produced" % (order, i, p)))
             return bad
         done.add(i)
-    return bad + [("#orders", len(orders))] if False else bad
   return bad
 
 
